@@ -10,7 +10,7 @@ from vf.runner import Acc, filler
 PROPERTY = "C02"
 CONCUR_FILES = ('bits/utils.py', 'bits/ecmath.py', 'bits/pem.py')
 # (thread a, thread b), warm-up: indices into seq_ops() - the ordinary single-case checks run concurrently (vf/concur.py)
-CONCUR_SCEN = [((0, 4), (8,)), ((0, 0), (4,)), ((2, 3), (0,)), ((0, 4, 8), ())]   # the last one: three threads
+CONCUR_SCEN = [((0, 4), (8,)), ((0, 0), (4,)), ((2, 3), (0,)), ((0, 8), (), (14, 15, 0, 8)), ((0, 8), (4,), (14, 15, 0, 8)), ((0, 4, 8), ())]   # the last two: two keys parsed concurrently for the first time, then sequential follow-up calls
 LEVEL = "exploration"
 ENGINES = ["E2-small-curve", "E1-scope-enumerator"]
 RULE = ("layer A (small curves): ecmath.verify over EVERY (point P, digest z in [0,2n+1], r in [0,n+1] u {r+n aliases}, "
@@ -211,6 +211,11 @@ def seq_ops(job):
         ops.append(("tuple", {"curve": cv, "sig": sig[:-2] + "21", "pk": cpk.hex(), "msg": msg.hex(), "what": "other sighash byte (must be rejected)"}))
     ops.append(("lows", {"curve": cv, "r": 5, "s": C.n - 2}))
     ops.append(("point", {"curve": cv, "P": list(C.mul(3, C.G)), "r": 1, "s": 1, "z": 0}))
+    # a signature made by one key presented under ANOTHER key's public key (must be rejected), both directions
+    sig3 = (D.encode(*valid_sig_for(C, 3, z)) + bytes([flag])).hex()
+    sig5 = (D.encode(*valid_sig_for(C, 5, z)) + bytes([flag])).hex()
+    ops.append(("tuple", {"curve": cv, "sig": sig5, "pk": enc_pk(C.mul(3, C.G), True).hex(), "msg": msg.hex(), "what": "signature of key 5 under key 3 (must be rejected)"}))
+    ops.append(("tuple", {"curve": cv, "sig": sig3, "pk": enc_pk(C.mul(5, C.G), True).hex(), "msg": msg.hex(), "what": "signature of key 3 under key 5 (must be rejected)"}))
     return ops
 
 
@@ -291,7 +296,7 @@ def run_job(job):
     if job["part"] == "concurcase":
         from vf.runner import run_concur_job
         ops = seq_ops(dict(job, shard=[0, 1]))
-        scens = [{"threads": [ops[i] for i in th], "warm": [ops[i] for i in wm]} for th, wm in CONCUR_SCEN]
+        scens = [{"threads": [ops[i] for i in sc[0]], "warm": [ops[i] for i in sc[1]], "post": [ops[i] for i in (sc[2] if len(sc) > 2 else ())]} for sc in CONCUR_SCEN]
         return run_concur_job(job, scens, run_case, PROPERTY, CONCUR_FILES)
     if job["part"] == "seq":
         from vf.runner import run_seq_job
